@@ -184,7 +184,7 @@ def run(rng, res, tier, shard, nshards):
     reach = Reach()
     for fn in ('calculate_viability_and_necessity', 'propagate_viability_from_node', 'propagate_necessity_from_node',
                'evaluate_viability', 'evaluate_necessity'):
-        reach.add('apriori.' + fn, getattr(ap, fn))
+        reach.add('apriori.' + fn, getattr(ap, fn, None))
     reach.start()
     # event counters on the propagators
     w1 = Watch(ap, 'propagate_viability_from_node', before=lambda a, k: res.count('event:viability-propagations'))
